@@ -183,6 +183,15 @@ Proof. exact cubic_arclen_right. Qed.
 Theorem C04_cubic_length_additive_gentle :
   forall (s : seg4 R) (m M t : R), 0 < m -> (forall u, 0 <= u <= 1 -> m <= cubic_speed s u <= M) -> M <= 2 * m -> 0 < t < 1 -> let l := fst (Cubic_splitAtTime ROps s t) in let r := snd (Cubic_splitAtTime ROps s t) in Rabs (Cubic_length ROps s - (Cubic_length ROps l + Cubic_length ROps r)) <= 4 / 10 ^ 4 * C10flat.cubic_arclen s 0 1.
 Proof. exact cubic_length_additive_gentle. Qed.
+Theorem C04_quad_arclen_left :
+  forall (s : seg3 R) t, 0 <= t -> C10flat.quad_arclen (fst (Quad_splitAtTime ROps s t)) 0 1 = C10flat.quad_arclen s 0 t.
+Proof. exact quad_arclen_left. Qed.
+Theorem C04_quad_arclen_right :
+  forall (s : seg3 R) t, t <= 1 -> C10flat.quad_arclen (snd (Quad_splitAtTime ROps s t)) 0 1 = C10flat.quad_arclen s t 1.
+Proof. exact quad_arclen_right. Qed.
+Theorem C04_quad_length_additive_gentle :
+  forall (s : seg3 R) (m M t : R), 0 < m -> (forall u, 0 <= u <= 1 -> m <= quad_speed s u <= M) -> M <= 2 * m -> 0 < t < 1 -> let l := fst (Quad_splitAtTime ROps s t) in let r := snd (Quad_splitAtTime ROps s t) in Rabs (Quad_length ROps s - (Quad_length ROps l + Quad_length ROps r)) <= 4 / 10 ^ 4 * C10flat.quad_arclen s 0 1.
+Proof. exact quad_length_additive_gentle. Qed.
 
 Print Assumptions C04_cubic_length_is_gl.
 Print Assumptions C04_quad_length_is_gl.
@@ -235,3 +244,6 @@ Print Assumptions C04_cubic_speed_right.
 Print Assumptions C04_cubic_arclen_left.
 Print Assumptions C04_cubic_arclen_right.
 Print Assumptions C04_cubic_length_additive_gentle.
+Print Assumptions C04_quad_arclen_left.
+Print Assumptions C04_quad_arclen_right.
+Print Assumptions C04_quad_length_additive_gentle.
